@@ -114,6 +114,8 @@ class SampleFactory:
         self.symbols = {}
 
     def real(self, name):
+        if name in self.symbols:
+            return self.symbols[name]
         if self.values is not None:
             v = float(self.values[name])
         else:
@@ -133,6 +135,8 @@ class SampleFactory:
         return [self.real(n) for n in names]
 
     def int(self, name):
+        if name in self.symbols:
+            return self.symbols[name]
         v = int(self.values[name]) if self.values is not None else self.rng.randint(-4, 6)
         self.symbols[name] = v
         return v
@@ -143,6 +147,8 @@ class SampleFactory:
         return [self.int(n) for n in names]
 
     def bool(self, name):
+        if name in self.symbols:
+            return self.symbols[name]
         v = bool(self.values[name]) if self.values is not None else self.rng.random() < 0.5
         self.symbols[name] = v
         return v
@@ -699,6 +705,9 @@ def _small(info):
 def replay_model(C, args, ghosts, model, label):
     """Turn a counter-model into concrete arguments and run the real function natively."""
     try:
+        if _has_opaque(args):
+            return {'confirmed': False, 'why': 'arguments contain opaque sub-trees (induction hypothesis): the '
+                    'counter-model is not an input; see the sampled evaluation on concrete trees'}
         cargs = concretize(args, model)
         cghosts = concretize(ghosts, model)
         allc = dict(cargs)
@@ -711,6 +720,21 @@ def replay_model(C, args, ghosts, model, label):
                 'args': jsonable(cargs), 'ghosts': jsonable(cghosts)}
     except Exception as exc:
         return {'confirmed': False, 'why': f'replay error {type(exc).__name__}: {exc}'}
+
+
+def _has_opaque(obj, depth=0):
+    if type(obj).__name__.startswith('Opaque'):
+        return True
+    if depth > 6:
+        return False
+    if isinstance(obj, (list, tuple)):
+        return any(_has_opaque(x, depth + 1) for x in obj)
+    if isinstance(obj, dict):
+        return any(_has_opaque(x, depth + 1) for x in obj.values())
+    d = getattr(obj, '__dict__', None)
+    if isinstance(d, dict) and not inspect.isroutine(obj) and not inspect.isclass(obj) and not inspect.ismodule(obj):
+        return any(_has_opaque(x, depth + 1) for x in d.values())
+    return False
 
 
 def sample_unit(cname, case_label, seed, n=200):
